@@ -103,6 +103,17 @@ def gen_rounds(seed, tier, run):
             for ax in range(len(sh)):
                 out.append(f"sort@{ty} {arr(sh, es)} z{ax} {rng.choice(KINDS)}")
                 out.append(f"argsort@{ty} {arr(sh, es)} z{ax} {rng.choice(KINDS)}")
+    for ty in ("strw", "pairk", "char"):
+        for n_ in (1, 2, 3, 5, 9, 20):
+            for _ in range(4):
+                l = [rng.randint(0, 15) for _ in range(n_)]
+                out.append(f"argmax@{ty} {arr([n_], l)} n z0")
+                out.append(f"argmin@{ty} {arr([n_], l)} n z0")
+        for sh in ([2, 3], [3, 2, 2]):
+            es = [rng.randint(0, 9) for _ in range(prod(sh))]
+            for ax in list(range(-len(sh), len(sh))):
+                out.append(f"argmax@{ty} {arr(sh, es)} z{ax} z{rng.randint(0, 2)}")
+                out.append(f"argmin@{ty} {arr(sh, es)} z{ax} z{rng.randint(0, 2)}")
     for L in (40, 64, 100):
         sh = [3, L]
         es = [rng.randint(0, 50) for _ in range(3 * L)]
